@@ -73,6 +73,7 @@ func runCNF(c CNFCase, certified bool) (o cnfObs) {
 	o.nbVars = pb.NbVars
 	var s *solver.Solver
 	var ch chan string
+	var drained chan struct{}
 	func() {
 		defer func() {
 			if e := recover(); e != nil {
@@ -85,7 +86,14 @@ func runCNF(c CNFCase, certified bool) (o cnfObs) {
 		}()
 		s = solver.New(pb)
 		if certified {
-			ch = make(chan string, 1<<16)
+			ch = make(chan string, 256)
+			drained = make(chan struct{})
+			go func() {
+				for l := range ch {
+					o.cert = append(o.cert, l)
+				}
+				close(drained)
+			}()
 			s.Certified = true
 			s.CertChan = ch
 		}
@@ -93,13 +101,8 @@ func runCNF(c CNFCase, certified bool) (o cnfObs) {
 		o.stats = s.Stats
 	}()
 	if ch != nil {
-		if len(ch) == cap(ch) {
-			o.certOverrun = true
-		}
 		close(ch)
-		for l := range ch {
-			o.cert = append(o.cert, l)
-		}
+		<-drained
 	}
 	if o.panicked != "" || o.aborted {
 		return
